@@ -1,1 +1,2 @@
+pub mod grammar;
 pub mod reflex;
